@@ -102,3 +102,27 @@ def ts_fields(ts: Any) -> Dict[str, Any]:
     nxt = ex.pop("next_obs", None)
     return {"step_type": ts.step_type, "reward": ts.reward, "discount": ts.discount, "obs": ts.observation,
             "extras": ex, "next_obs": nxt}
+
+
+def stacked(env: Any) -> Any:
+    """`env` inside a user-style wrapper whose `reset` is NOT the inner environment's reset (the key is folded first) and which adds
+    nothing else: a wrapper placed on top must reset through this wrapper, not through `unwrapped` (Props.C13.step_last_stack)"""
+    import jax
+    from jumanji.wrappers import Wrapper
+
+    class KeyFoldWrapper(Wrapper):
+        def reset(self, key):  # type: ignore[override]
+            return self._env.reset(jax.random.fold_in(key, 977))
+
+    return KeyFoldWrapper(env)
+
+
+def stack_variants(entries: List[Any], quick: bool, seed: int) -> List[Any]:
+    """(entry, stacked?) pairs: every entry bare; behind a user wrapper for a rotating share (quick) or all (thorough) of them"""
+    out = [(e, False) for e in entries]
+    for e in entries:
+        if e.meta.get("constant_generator"):
+            continue  # the folded key would not change what reset returns
+        if (not quick) or e.cls in ("Snake", "Knapsack") or (sum(map(ord, e.cid)) + seed) % 4 == 0:
+            out.append((e, True))
+    return out
